@@ -13,6 +13,7 @@ import (
 
 	"github.com/foxboron/go-uefi/efi"
 	"github.com/foxboron/go-uefi/efi/attributes"
+	"github.com/foxboron/go-uefi/efivar"
 	"github.com/foxboron/go-uefi/efi/device"
 	efifs "github.com/foxboron/go-uefi/efi/fs"
 	"github.com/foxboron/go-uefi/efivarfs/testfs"
@@ -143,6 +144,31 @@ func runBoot(sc M) {
 					fail("entry %d: name %q does not resolve although the variable exists: %v", k, got[k], err)
 				} else if k < len(nums) && ent.Description != fmt.Sprintf("E%d", numv(nums[k])) {
 					fail("entry %d: name %q resolved to entry %q", k, got[k], ent.Description)
+				}
+			}
+			// entries created after the boot order (and after a first, failing look-up) on ONE accessor object: a name that
+			// did not resolve while its variable was missing resolves once the variable has been written
+			late := testfs.NewTestFS().With(fstest.MapFS{"/sys/firmware/efi/efivars/BootOrder-" + globalGUIDText: {Data: content}}).Open()
+			lo := late.GetBootOrder()
+			created := map[string]bool{}
+			for k := 0; k < len(lo) && k < 3 && k < len(nums); k++ {
+				if created[lo[k]] { // a boot order may name an entry twice
+					continue
+				}
+				created[lo[k]] = true
+				if _, err := late.GetBootEntry(lo[k]); err == nil {
+					fail("entry %d: %q resolves although no such variable exists", k, lo[k])
+				}
+				gg := guidOf(varGUIDWire, "global")
+				v := efivar.Efivar{Name: lo[k], GUID: &gg, Attributes: attributes.Attributes(7)}
+				if err := late.WriteVar(v, rawDB(simpleOption(fmt.Sprintf("E%d", numv(nums[k]))))); err != nil {
+					fail("entry %d: writing %q failed: %v", k, lo[k], err)
+					continue
+				}
+				if ent, err := late.GetBootEntry(lo[k]); err != nil {
+					fail("entry %d: %q was created after a failed look-up and still does not resolve: %v", k, lo[k], err)
+				} else if ent.Description != fmt.Sprintf("E%d", numv(nums[k])) {
+					fail("entry %d: %q created later resolved to entry %q", k, lo[k], ent.Description)
 				}
 			}
 			// legacy package-level API on the same data
